@@ -297,11 +297,15 @@ impl Parser {
                     "Compact" => Ty::Compact(a(0)),
                     "PhantomData" => Ty::Phantom(a(0)),
                     "BitVec" => {
-                        let Ty::Prim(store) = *a(0) else { panic!("bit store") };
-                        let syn::Type::Path(o) = args[1] else { panic!("bit order") };
-                        let o = o.path.segments.last().unwrap().ident.to_string();
-                        Ty::BitVec(store, o == "Msb0")
+                        let store = *a(0);
+                        let order = *a(1);
+                        match (&store, &order) {
+                            (Ty::Prim(p), Ty::Order(msb)) => Ty::BitVec(*p, *msb),
+                            _ => Ty::BitVecG(Box::new(store), Box::new(order)),
+                        }
                     }
+                    "Lsb0" => Ty::Order(false),
+                    "Msb0" => Ty::Order(true),
                     n if n.starts_with("NonZero") => {
                         let p = Prim::from_rust_name(&n["NonZero".len()..].to_lowercase())
                             .expect("NonZero kind");
@@ -403,6 +407,10 @@ fn constructors_of(ty: &Ty, out: &mut BTreeSet<String>) {
         | Ty::RangeInclusive(t)
         | Ty::Compact(t)
         | Ty::Phantom(t) => constructors_of(t, out),
+        Ty::BitVecG(a, b) => {
+            constructors_of(a, out);
+            constructors_of(b, out)
+        }
         Ty::Result(a, b) | Ty::BTreeMap(a, b) => {
             constructors_of(a, out);
             constructors_of(b, out)
